@@ -18,6 +18,7 @@ CONSTANTS
   Bug_DeletePending = FALSE
   Bug_DeletePinned = FALSE
   Bug_ImmDropEarly = FALSE
+  Bug_FlushDeepDuringCompaction = FALSE
 INVARIANTS ReadCorrect WellFormed NothingLiveDeleted SeqSane
 PROPERTIES Invisible NoLeakAfterPass
 CONSTRAINT MCBound
